@@ -379,6 +379,7 @@ theorem psV3Connack_inv {a P c} (h : Inv0 a P c) (p : Pkt) : Inv a P (psV3Connac
   · exact (h.err _).inv
   · exact ((cancelTimers_inv0 (by simpa [flagsOf] using h.g) (by simpa using h.n0)).push _ rfl).inv
   · exact spp_inv (by frame_inv h.inv) (by simp)
+  · exact spp_inv (by frame_inv h.inv) (by simp)
 
 @[simp] theorem connackSendProp_tv (c : C) (id v : Nat) :
     (connackSendProp c id v).cfg = c.cfg ∧
@@ -423,7 +424,9 @@ theorem psV5Connack_inv {a P c} (h : Inv0 a P c) (p : Pkt) : Inv a P (psV5Connac
   by_cases hr : p.rc = some 0
   · simp only [hr, if_true, ne_eq, not_true_eq_false, if_false]
     obtain ⟨h1, h2, h3⟩ := propsFold_connackSendProp_inv h.inv hs' p.props
-    exact spp_inv (by frame_inv h1) (by simp)
+    split
+    · exact spp_inv (by frame_inv h1) (by simp)
+    · exact spp_inv (by frame_inv h1) (by simp)
   · simp only [hr, if_false, ne_eq, not_false_eq_true, if_true]
     exact ((cancelTimers_inv0 (by simpa [flagsOf] using h.g) (by simpa using h.n0)).push _ rfl).inv
 
